@@ -23,6 +23,7 @@ type c16Exec struct {
 	files    map[string]string // files written before the run (relative)
 	mkdirs   []string          // directories created before the run (e.g. the gen path itself)
 	pre      map[string]string // output files present before the run (stale content); not part of the baseline run
+	preOf    string            // "prefix:N" / "same" / "same+tail": stale gen_x.go derived from the fault-free output
 	symlinks map[string]string // symbolic links created before the run (name -> target)
 	args     []string          // fc arguments after pkg_all.foi (relative to the run directory)
 	noPkgAll bool
@@ -661,6 +662,15 @@ func c16FaultRuns(env *scratch.Env, fc string, tier string) []*c16Exec {
 			e.desc = "a " + k + " gen_x.go exists before translating " + pn
 			out = append(out, e)
 		}
+		// what an interrupted or earlier run of the same translation leaves behind: the output cut at
+		// 0, 1, every multiple of 4096 and one byte before its end, the output itself, the output
+		// followed by a stale tail (the cut positions are filled in from the fault-free run)
+		for _, k := range []string{"prefix:0", "prefix:1", "prefix:4096", "prefix:8192", "prefix:12288", "prefix:last-block", "prefix:len-1", "same", "same+tail"} {
+			e := &c16Exec{class: "stale-output", files: map[string]string{"x.fo": src}, args: []string{"x.fo"}, preOf: k}
+			e.id = "stale-output:" + pn + ":" + k
+			e.desc = "gen_x.go holds [" + k + "] of the complete output before translating " + pn
+			out = append(out, e)
+		}
 		e := &c16Exec{class: "output-fault", files: map[string]string{"x.fo": src}, args: []string{"x.fo"}, symlinks: map[string]string{"gen_x.go": "/dev/full"}, faultOut: true, devFull: true}
 		e.id = "fault:" + pn + ":dev-full"
 		e.desc = "gen_x.go is a symbolic link to /dev/full (open succeeds, every write fails with ENOSPC) while translating " + pn
@@ -682,7 +692,7 @@ func runC16(r *core.Run, tier string) {
 		return
 	}
 	const cpuBudget = 10
-	r.Rule("a case is one execution of the rebuilt fc binary in a clean directory under RLIMIT_CPU=10 s (normal cost ~10 ms): mutants of ~35 seed programs (truncation at every byte offset, deletion/duplication/swap/replacement of every token, indentation damage per line, dangling comment/string/bracket/keyword tails), random byte strings, a corpus of ill-typed and self-referential definitions, argument-list faults, strace-injected errors on each openat/write/close of the output path, an output path that is a link to /dev/full, stale gen files (longer / shorter) present beforehand, and size-scaled inputs (one construct nested or repeated 10^2..10^6 times: brackets, slice / function / tuple types, operator chains, statements, definitions, cases, fields, literals, comments; own CPU budget of 300 s, exceeding it is inconclusive); judged by: terminates within the CPU budget, no Go runtime fatal error or signal, exit 0 => every requested gen file present (and byte-equal to the fault-free output in fault runs), exit != 0 => diagnostic printed and nothing written for the offending file; non-trivial = the input differs from every seed (all mutants) ; distinct by class + content hash")
+	r.Rule("a case is one execution of the rebuilt fc binary in a clean directory under RLIMIT_CPU=10 s (normal cost ~10 ms): mutants of ~35 seed programs (truncation at every byte offset, deletion/duplication/swap/replacement of every token, indentation damage per line, dangling comment/string/bracket/keyword tails), random byte strings, a corpus of ill-typed and self-referential definitions, argument-list faults, strace-injected errors on each openat/write/close of the output path, an output path that is a link to /dev/full, stale gen files present beforehand (longer / shorter / sharing the first line; the complete output cut at 0, 1, every multiple of 4096, its last block boundary and one byte before its end; the output itself; the output plus a stale tail), and size-scaled inputs (one construct nested or repeated 10^2..10^6 times: brackets, slice / function / tuple types, operator chains, statements, definitions, cases, fields, literals, comments; own CPU budget of 300 s, exceeding it is inconclusive); judged by: terminates within the CPU budget, no Go runtime fatal error or signal, exit 0 => every requested gen file present (and byte-equal to the fault-free output in fault runs), exit != 0 => diagnostic printed and nothing written for the offending file; non-trivial = the input differs from every seed (all mutants) ; distinct by class + content hash")
 	r.Assume("termination is decided as CPU time <= 10 s on inputs <= 64 KiB (three orders of magnitude above normal cost); the wall-clock watchdog only yields 'inconclusive'", "after an injected failure of the output write itself a partial gen file may remain; exit status and diagnostic are still required", "strace -P restricts injection to syscalls on the output path")
 	rng := core.NewRand(r.SeedV, "c16")
 	work := c16Workload(env, tier, rng)
@@ -691,6 +701,27 @@ func runC16(r *core.Run, tier string) {
 	for _, f := range faults {
 		o := c16Run(fc, env.PkgAll(), env.Dir("c16/base-"+core.Hash(f.id)), &c16Exec{files: f.files, args: f.args}, cpuBudget)
 		f.baseline = o.gen
+		if full, ok := o.gen["gen_x.go"]; ok && f.preOf != "" {
+			n := -1
+			switch f.preOf {
+			case "same":
+				f.pre = map[string]string{"gen_x.go": full}
+			case "same+tail":
+				f.pre = map[string]string{"gen_x.go": full + strings.Repeat("// stale tail\n", 300)}
+			case "prefix:last-block":
+				n = (len(full) - 1) / 4096 * 4096
+			case "prefix:len-1":
+				n = len(full) - 1
+			default:
+				fmt.Sscanf(f.preOf, "prefix:%d", &n)
+			}
+			if n >= 0 && n < len(full) {
+				f.pre = map[string]string{"gen_x.go": full[:n]}
+			}
+			if f.pre != nil {
+				r.Count("stale_outputs_derived_from_the_complete_output", 1)
+			}
+		}
 	}
 	all := append(work, faults...)
 	all = append(all, c16ScaleRuns(tier)...)
